@@ -36,7 +36,10 @@ def createTemplate (T : Tables) (fuel : Nat) (edition : Nat) (descs : List Nat) 
     | some delayed =>
       match expandSequence T fuel 0 (descs.map (mkNode T)) with
       | .error e => .error e
-      | .ok g => .ok { edition := edition, descs := descs, gabarit := g, hasDelayed := delayed }
+      | .ok g =>
+        -- a delayed replication may also come from inside a Table D sequence
+        let d2 := g.any fun n => Desc.f n.desc = 1 && Desc.y n.desc = 0
+        .ok { edition := edition, descs := descs, gabarit := g, hasDelayed := delayed || d2 }
 
 /-- `bufr_sequence_to_array(bsq, 1)`: every node of a value-bearing type gets a value (missing) -/
 def mkvalAll (ns : List Node) : List Node :=
